@@ -16,6 +16,7 @@ import os, subprocess, collections
 import vlib
 
 PROP_MODULE = "GomlVerif.Props.GoPrint"
+LEX_MODULE = "GomlVerif.Props.GoLex"
 PANIC = "\x00PANIC"
 
 
@@ -30,6 +31,85 @@ def run_model(ctx, lines):
             f = l.split("\t")
             res[f[0]] = f[1:]
     return res
+
+
+def golex(ctx, cases, res):
+    """the LEXICAL tie: the REAL text of every item (width 120) is lexed by Model/GoLex.lean (`gomlmodel golex`), which
+    must return the tokens the model's `Doc.pieces` predicts (with Go's automatic semicolons), and by the tokenizer of
+    harness/src/goparse.rs (`gv golex`), an independent second lexer that must return the same kinds and texts"""
+    lines = [f"{k}\t{r[2]}\t{r[5]}" for k, r in cases.items() if PANIC not in r[5]]
+    if not lines:
+        return {}
+    data = ("\n".join(lines) + "\n").encode("utf-8")
+    p = subprocess.run([vlib.MODEL, "golex"], input=data, stdout=subprocess.PIPE, stderr=subprocess.PIPE, timeout=3000)
+    if p.returncode != 0:
+        ctx.broken_ties.append(("model driver golex", p.stderr.decode("utf-8", "replace")[-2000:]))
+    q = subprocess.run([vlib.GV, "golex"], input=("\n".join(f"{k}\t{r[5]}" for k, r in cases.items() if PANIC not in r[5]) + "\n").encode("utf-8"),
+                       stdout=subprocess.PIPE, stderr=subprocess.PIPE, timeout=3000)
+    if q.returncode != 0:
+        ctx.broken_ties.append(("gv golex", q.stderr.decode("utf-8", "replace")[-2000:]))
+    lean = {f[0]: f[1:] for f in (l.split("\t") for l in p.stdout.decode("utf-8", "replace").split("\n") if l)}
+    rust = {f[0]: f[1:] for f in (l.split("\t") for l in q.stdout.decode("utf-8", "replace").split("\n") if l)}
+    c = collections.Counter()
+    nbad = 0
+    sample = None
+    for k, r in cases.items():
+        if PANIC in r[5]:
+            c["skipped(printer panics)"] += 1
+            continue
+        m, g = lean.get(k), rust.get(k)
+        comp = r[1] == "ITEM"
+        if m is None or m[0] != "ok" or len(m) < 7:
+            nbad += 1
+            if nbad <= 5:
+                ctx.broken_ties.append(("go-lexer-model", f"{k}: gomlmodel golex gave {m[:2] if m else None}"))
+            continue
+        c["items_lexed"] += 1
+        c["tokens"] += int(m[2]); c["automatic_semicolons"] += int(m[3])
+        gf = (res.get(k) or [""] * 6)[5:6] == ["true"]
+        wf = m[4] == "true" and gf
+        if wf:
+            c["items_all_tokens_wf_and_glueFree(hypotheses of lex_render_tokens)"] += 1
+        if m[5] == "true":
+            c["items_with_a_qualified_name(split at the dot)"] += 1
+        if m[1] != "eq":
+            # a synthetic item may hold texts outside Go's token grammar (empty names, NaN / inf spelled by Rust, …):
+            # and glued tokens (`--nil`, `0.(T)`): there the model's pieces are not `wf` or not `glueFree`; for a wf, glue-free item and for every compiler-produced item a difference
+            # breaks the tie
+            if comp or wf:
+                nbad += 1
+                if nbad <= 5:
+                    ctx.broken_ties.append(("go-lexer-model", f"{k}: Model/GoLex.lean on the real text gives {m[1]}, not the token list of the model's Doc.pieces: {vlib.unesc(r[5])[:400]}"))
+            else:
+                c["synthetic_not_wf_or_glued_and_lexed_differently"] += 1
+            continue
+        c["items_lex_equals_model_pieces"] += 1
+        if g is None or g[0] != "ok":
+            if comp:
+                nbad += 1
+                if nbad <= 5:
+                    ctx.broken_ties.append(("go-lexer-model", f"{k}: harness/src/goparse.rs cannot tokenize the text ({g[1][:200] if g else None})"))
+            else:
+                c["synthetic_goparse_tokenizer_rejects"] += 1
+            continue
+        if g[1] != m[6]:
+            txt = vlib.unesc(r[5])
+            if not comp and ("--" in txt or "++" in txt or not wf):
+                c["synthetic_goparse_differs(no ++ / -- tokens there, or not wf)"] += 1
+            else:
+                nbad += 1
+                if nbad <= 5:
+                    a, b = m[6].split("\x01"), g[1].split("\x01")
+                    i = next((i for i in range(min(len(a), len(b))) if a[i] != b[i]), min(len(a), len(b)))
+                    ctx.broken_ties.append(("go-lexer-model", f"{k}: the two lexers differ at token {i}: Lean {a[i:i + 3]} goparse.rs {b[i:i + 3]}"))
+            continue
+        c["items_both_lexers_agree"] += 1
+        if sample is None and comp and int(m[3]) > 2:
+            sample = {"id": k, "text": vlib.unesc(r[5])[:160], "tokens": m[6].split("\x01")[:14], "automatic_semicolons": int(m[3])}
+    out = dict(sorted(c.items()))
+    out["items_differing"] = nbad
+    out["sample"] = sample
+    return out
 
 
 def evaluate(ctx, extra=()):
@@ -128,6 +208,7 @@ def evaluate(ctx, extra=()):
         "ast_forms_seen(items containing)": dict(sorted(forms.items())),
         "synthetic(strictness, goparse verdict, model verdict)": {" / ".join(k): v for k, v in sorted(syn.items())},
         "theorem_reach": dict(roots),
+        "golex(character-level lexer on the real text)": golex(ctx, cases, res),
         "samples": samples,
         "rule": "distinct = distinct item dumps; every item is printed by the real printer at three widths and by the model; equality is on bytes",
     }
@@ -147,12 +228,12 @@ def add_to(ctx, prop, cov):
     for sig, what, payload in found:
         ctx.report(sig, what, payload)
     cov["gopp"] = gcov
-    ctx.assumptions.append("go_pprint.rs has its own model (Model/GoPrint.lean) tied byte for byte by `gv gopp` at widths 40/80/120; Props/GoPrint.lean proves on the model: the layout does not depend on the width (the printer has no soft break), the printed text of a paren-free expression parses back to it by Go's precedence rules, escape_go_string is inverted by Go's string-literal decoding, no line break separates tokens that Go's semicolon rule would split; the char-level Go lexer is not modelled (tokens are the printer's own text pieces; adjacency is checked per item by `glueFree`)")
+    ctx.assumptions.append("go_pprint.rs has its own model (Model/GoPrint.lean) tied byte for byte by `gv gopp` at widths 40/80/120; Props/GoPrint.lean proves on the model: the layout does not depend on the width (the printer has no soft break), the printed text of a paren-free expression parses back to it by Go's precedence rules, escape_go_string is inverted by Go's string-literal decoding, no line break separates tokens that Go's semicolon rule would split; Go's lexer at character level is Model/GoLex.lean: Props/GoLex.lean proves its skeleton (blanks, newlines, indentation, automatic semicolons: `lex_layout`) and identifiers / keywords (`lexTok_word`, `lex_render_tokens_partial`); that it returns the model's token pieces on numbers, strings, operators and glue-free adjacent tokens is validated on the real text of every item (`golex` tie, two independent lexers), not proved")
 
 
 def run(ctx):
     ctx.extract()
-    ctx.build_lean([PROP_MODULE])
+    ctx.build_lean([PROP_MODULE, LEX_MODULE])
     if not ctx.build_harness():
         return ctx.finish("proof", {"programs": 0, "disagreements_checked": 0, "samples": []}, [], "lake build")
     cov, found = evaluate(ctx)
